@@ -505,13 +505,24 @@ pub fn plan_history(prop: &str, tier: &str, seed: u64, n: usize) -> Plan {
             2 => { q.max_dims = 4; q.max_attrs = 2; }
             _ => {}
         }
+        // a few histories on wide structures: up to 3 x 5 attributes, i.e. up to 216 rights - the counts of rights in the
+        // serialised keys then need two LEB128 bytes (> 127) - and, outside C17 (which does it often), a few at a higher
+        // tracing level
+        if (s >> 8) % 40 == 0 {
+            q.max_dims = 3;
+            q.max_attrs = 5;
+            q.n_ops = q.n_ops.min(12);
+        }
+        if q.tracers_pct == 0 && (s >> 16) % 25 == 0 {
+            q.tracers_pct = 100;
+        }
         cases.push(Case { expect: vec![], name: format!("{prop}-hist{i}-seed{s}"), lines: HistGen::history(s, q) });
     }
     Plan {
         per_line: false,
         cases,
         exhaustive: false,
-        rule: format!("{n} random operation histories ({} ops after a random base structure of <= {} dimensions x <= {} attributes - 20% of the histories: <= 2 dimensions x <= 6 attributes, 10%: <= 4 dimensions x <= 2 attributes; profile {:?}); a case is one history executed on the real API and on the Lean model with canonical outputs compared line by line; distinct = distinct canonical implementation traces (hash of ops and normalised outputs)", p.n_ops, p.max_dims, p.max_attrs, prop),
+        rule: format!("{n} random operation histories ({} ops after a random base structure of <= {} dimensions x <= {} attributes - 20% of the histories: <= 2 dimensions x <= 6 attributes, 10%: <= 4 dimensions x <= 2 attributes, 2.5%: <= 3 x <= 5 (up to 216 rights), 4%: a master key with 3, 4 or 6 tracers; profile {:?}); a case is one history executed on the real API and on the Lean model with canonical outputs compared line by line; distinct = distinct canonical implementation traces (hash of ops and normalised outputs)", p.n_ops, p.max_dims, p.max_attrs, prop),
     }
 }
 
